@@ -10,6 +10,7 @@ import (
 	"net/http"
 	"net/http/httptest"
 	"os"
+	"strings"
 	"sync"
 	"time"
 
@@ -66,6 +67,14 @@ type recWitness struct {
 	cp    []byte
 	err   error
 	n     int
+	hist  []recUpdate // every submission, in order (chains look for the FIRST submission of a size: later ones are refreshes)
+}
+
+type recUpdate struct {
+	old   uint64
+	proof [][]byte
+	cp    []byte
+	err   error
 }
 
 func (r *recWitness) GetLatestCheckpoint(ctx context.Context, id string) ([]byte, error) {
@@ -76,6 +85,7 @@ func (r *recWitness) Update(ctx context.Context, id string, old uint64, cp []byt
 	r.mu.Lock()
 	r.old, r.proof, r.cp, r.err = old, proof, cp, err
 	r.n++
+	r.hist = append(r.hist, recUpdate{old, proof, cp, err})
 	r.mu.Unlock()
 	if err != nil {
 		// do not let the feeder's backoff loop spin: report success, the verdict is recorded
@@ -93,6 +103,7 @@ func tileMain(args []string) error {
 	seed := fs.Int64("seed", 1, "seed")
 	workers := fs.Int("workers", 8, "workers")
 	kind := fs.String("feeder", "sumdb", "which feeder builds the proofs: sumdb | tiles | pixel | rekor")
+	nchains := fs.Int("chains", 0, "growth chains followed by ONE long-running feeder each (fixed boundary chains plus this many random ones)")
 	_ = fs.Parse(args)
 	tw, err := newTraceWriter(*out)
 	if err != nil {
@@ -163,6 +174,41 @@ func tileMain(args []string) error {
 		}
 		pairs = append(pairs, pair{from, to})
 	}
+	// chains: one FeedLog with a poll interval follows a log through several sizes; whatever the feeder keeps between cycles is in play
+	var chains [][]uint64
+	if *nchains > 0 {
+		chains = [][]uint64{{100, 300, 700, 1000, 1025}, {1, 255, 256, 257, 511, 512, 513, 1024}, {200, 65000, 65536, 65537, 66000, 131072, 131073, 200000},
+			{3, 70000, 70300, 70700, 140000}, {256, 512, 768, 65536, 65792}, {5, 6, 7, 8, 9, 300, 301}}
+		if *kind == "pixel" {
+			chains = [][]uint64{{100, 300, 500, 700}, {1, 255, 256, 257, 511, 512, 513, 690}, {256, 512, 600}, {5, 6, 7, 8, 9, 300, 301}}
+		}
+		for j := 0; j < *nchains; j++ {
+			n := 3 + rng.Intn(5)
+			lim := int64(1 << 18)
+			if *kind == "pixel" {
+				lim = 40
+			}
+			c := make([]uint64, 0, n)
+			cur := uint64(rng.Int63n(600)) + 1
+			for len(c) < n {
+				if *kind == "pixel" && cur >= 1900 {
+					break // the Pixel feeder's tile path format (%03d) is only defined below tile index 1000
+				}
+				c = append(c, cur)
+				step := uint64(rng.Int63n(700)) + 1
+				if rng.Intn(3) == 0 {
+					step = uint64(rng.Int63n(lim)) + 1
+				}
+				cur += step
+			}
+			chains = append(chains, c)
+		}
+	}
+	chainCh := make(chan []uint64, len(chains)+1)
+	for _, c := range chains {
+		chainCh <- c
+	}
+	close(chainCh)
 	ch := make(chan pair, 256)
 	var wg sync.WaitGroup
 	var evMu sync.Mutex
@@ -239,6 +285,69 @@ func tileMain(args []string) error {
 				k++
 				events = append(events, ev)
 				evMu.Unlock()
+			}
+			ci := 0
+			for sizes := range chainCh {
+				ci++
+				st, _ := newStore("inmem", "")
+				wit, err := newWitness(base, st.p)
+				if err != nil {
+					firstErr = err
+					return
+				}
+				sl.Publish(0, sizes[0])
+				rw := &recWitness{inner: omniwitness.VerifWitnessAdapter(wit)}
+				ctx, cancel := context.WithCancel(context.Background())
+				done := make(chan error, 1)
+				go func() { done <- feed(ctx, lc, rw, ts.Client(), 25*time.Millisecond) }()
+				// waitFor waits for the feeder's first submission of a checkpoint of the given size and returns what was recorded for it
+				waitFor := func(size uint64) (bool, uint64, [][]byte, error) {
+					want := fmt.Sprintf("\n%d\n", size)
+					deadline := time.Now().Add(4 * time.Second)
+					for time.Now().Before(deadline) {
+						rw.mu.Lock()
+						for _, u := range rw.hist {
+							if strings.Contains(string(u.cp), want) {
+								rw.mu.Unlock()
+								return true, u.old, u.proof, u.err
+							}
+						}
+						rw.mu.Unlock()
+						time.Sleep(5 * time.Millisecond)
+					}
+					return false, 0, nil, nil
+				}
+				got, _, _, e0 := waitFor(sizes[0])
+				okSoFar := got && e0 == nil
+				for j := 1; j < len(sizes); j++ {
+					from, to := sizes[j-1], sizes[j]
+					ev := tileEvent{E: "tile.proof", Run: fmt.Sprintf("%s/%s/chain%d", *kind, tag, ci), From: from, To: to}
+					if okSoFar {
+						sl.Publish(0, to)
+						got, old, pf, e := waitFor(to)
+						r1, r2 := l.Trees[0].Root(from), l.Trees[0].Root(to)
+						if got {
+							ev.PfLen = len(pf)
+							ev.RefOK = ref.VerifyConsistency(from, to, pf, r1[:], r2[:])
+							ev.Accepted = e == nil
+							ev.OldOK = old == from
+						}
+						okSoFar = ev.Accepted && ev.RefOK
+					}
+					evMu.Lock()
+					ev.K = k
+					k++
+					events = append(events, ev)
+					evMu.Unlock()
+					if !okSoFar {
+						break // the witness is no longer where the chain needs it
+					}
+				}
+				cancel()
+				select {
+				case <-done:
+				case <-time.After(5 * time.Second):
+				}
 			}
 		}(wk)
 	}
